@@ -697,7 +697,19 @@ func check16DefaultScheme(c Case16, r *core.Rec) {
 				r.NT()
 			}
 		} else {
-			r.Vacuous()
+			// a base that fails only for lack of a scheme is read as scheme://base (the option's
+			// documented effect applies to the URL that is missing a scheme, here the base)
+			var tb spec.Trace
+			if _, mok := Model.ParseT(string(c.Base), nil, &tb); !mok && tb.NoSchemeFailure() && scheme != "" {
+				wu, werr := url.ParseRef(scheme+"://"+string(c.Base), x)
+				if d := sameOutcome(parse16(p, c), parsed{wu, werr}); d != "" {
+					r.Failf("%s: the base lacks a scheme but the profile's ParseRef does not give ParseRef(%s, ref): %s", where16(c), quote(scheme+"://"+string(c.Base)), d)
+				}
+				r.Class("default-scheme:base-applied")
+				r.NT()
+			} else {
+				r.Vacuous()
+			}
 		}
 		return
 	}
@@ -1105,7 +1117,7 @@ func Gen16(t *rapid.T) Case16 {
 		c.Opts = []Opt16{{Name: "default-scheme", Str: gen.Pick(t, "defscheme", []string{"http", "https", "foo", "", "9x", "file", "ws"})}}
 		if rapid.IntRange(0, 3).Draw(t, "dsBase") == 0 {
 			c.HasBase = true
-			c.Base = B(gen.Pick(t, "dsBaseV", []string{"mailto:a@b", "data:x", "foo:o?q", "http://h/p", "file:///d/e", "foo://h/p", "urn:x:y"}))
+			c.Base = B(gen.Pick(t, "dsBaseV", []string{"mailto:a@b", "data:x", "foo:o?q", "http://h/p", "file:///d/e", "foo://h/p", "urn:x:y", "www.example.com/a/b", "example.com", "h/p?q", "1.2.3.4/x", "//h/p", "/only/path"}))
 			c.Input = B(gen.Ref(t, "dsRef", gen.SchemeOf(string(c.Base))))
 		}
 	case "neutral":
